@@ -262,6 +262,12 @@ def gen_c08_engines():
     # the engine type every mirror in the harness assumes, and the tolerance the property's quantifier names
     if not re.search(r'using\s+RandomEngine\s*=\s*std::mt19937\s*;', E.strip_comments(E.read('include/AIToolbox/Types.hpp'))):
         errs.append('RandomEngine is no longer std::mt19937')
+    # storage order: the dense scan indexes a row of a row-major matrix; the sparse theorems assume the stored columns of a row ascend
+    types = _norm(E.strip_comments(E.read('include/AIToolbox/Types.hpp')))
+    if 'usingMatrix2D=Eigen::Matrix<double,Eigen::Dynamic,Eigen::Dynamic,Eigen::RowMajor|Eigen::AutoAlign>;' not in types:
+        errs.append('Matrix2D is no longer a row-major dynamic double matrix')
+    if 'usingSparseMatrix2D=Eigen::SparseMatrix<double,Eigen::RowMajor>;' not in types:
+        errs.append('SparseMatrix2D is no longer a row-major sparse double matrix')
     m = re.search(r'constexpr\s+auto\s+equalToleranceSmall\s*=\s*([0-9.eE+-]+)\s*;', E.strip_comments(E.read('include/AIToolbox/Utils/Core.hpp')))
     if not m or float(m.group(1)) != 1e-6:
         errs.append('equalToleranceSmall is not 1e-6 (the property quantifies over row sums in [1-1e-6, 1+1e-6])')
